@@ -103,7 +103,7 @@ CLAIMED["C04"] = {
 
 CLAIMED["C15"] = {
     "technique": "Lean 4 state-machine model of what persists between load() calls (AmrReader.cpu_list) with an induction over call histories; history correspondence against fresh datasets on the real library",
-    "text": "step_independent, C15_history_independent, C15_all_calls_fresh (for every history and every state left by earlier calls, a call opens exactly the files it opens on a fresh dataset) are proved for the repaired reset; C15_leak_witness proves the negation for the code as it was. Tie: per synthetic dataset (Hilbert-consistent ownership, particles, sinks) histories of 2-4 calls from 13 argument templates; after each history every group equals what a fresh RamsesDataset returns for the most recent call that produced it, earlier groups are kept, meta counts match the groups just loaded, and the number of files each call opens equals the model's.",
+    "text": "step_independent, C15_history_independent, C15_all_calls_fresh (for every history and every state left by earlier calls, a call opens exactly the files it opens on a fresh dataset) are proved for the repaired reset; C15_leak_witness proves the negation for the code as it was; C15_no_stale_reader_fields (decide on a table regenerated on every run by a must-assign analysis of every reader's `initialize` in io/*.py) says that `initialized` / `cpu_list` are reset on every path and that no cached field decides `initialize` before being assigned. Tie: per synthetic dataset (Hilbert-consistent ownership, particles, sinks) histories of 2-4 calls from 13 argument templates; after each history every group equals what a fresh RamsesDataset returns for the most recent call that produced it, earlier groups are kept, meta counts match the groups just loaded, and the number of files each call opens equals the model's.",
     "note": "trusted: Lean kernel + standard axioms; the LoadHistory model tracks the one reader field that is read before it is written (found by reading io/*.py); all other per-call state is compared through the fresh-dataset oracle",
     "design_ref": "5 C15",
 }
